@@ -131,6 +131,8 @@ impl<S: Serialize + Send + 'static + Debug, R: for<'a> Deserialize<'a> + Seriali
         join_with_err_log(self.sending_thread);
 
         // The receiving thread should already have been stopped once it saw the final message
+        // (and if not, it must not wait for us to make space for anything else it receives)
+        drop(self.receiver);
         trace!("Waiting for receiving thread");
         join_with_err_log(self.receiving_thread);
     }
@@ -153,6 +155,8 @@ impl<S: Serialize + Send + 'static + Debug, R: for<'a> Deserialize<'a> + Seriali
         let sending_thread_result = join_with_err_log(self.sending_thread);
 
         // The receiving thread should already have been stopped once it saw the final message
+        // (and if not, it must not wait for us to make space for anything else it receives)
+        drop(self.receiver);
         trace!("Waiting for receiving thread");
         join_with_err_log(self.receiving_thread);
 
